@@ -31,3 +31,33 @@ Proof.
   exact (py_trie_webentity_inorder_iter_spec s (run_Inv18 d rs h Hh) sg t n lru pp Hrep Hsub Hn).
 Qed.
 Print Assumptions C09_source_inorder.
+
+(* ---- the paginated request itself (GenTraphG.v: Traph.paginate_webentity_pages, translated; parse_pagination_token is the
+   modelled primitive).  For EVERY history, every page size k > 0 (or none), every token (absent, or any non-empty string, well
+   formed or not) and both values of crawled_only: the translated request returns exactly the answer record of the model's
+   Traph.paginate_pages - done flag, counts, pages, next token - and raises (None) exactly when the model refuses (an absent prefix
+   REACHED before the answer is complete) or crashes (malformed token, a path that cannot be followed); no byte changes.  Every
+   statement of Props/C09.v about paginate_pages (C09_chunks: the chain terminates, k pages per answer, done at the end;
+   C09_sorted_pages; C09_same_pages; C09_stable_chain / _no_repeat / _no_skip) is therefore a statement about the translated
+   request. *)
+From Traph Require GenTraphG GenTraphGFacts.
+Import GenTraphG.
+Theorem C09_source_paginate_pages : forall d rs h, Forall wf_op h ->
+  let s := run d rs h in
+  forall sg w ps k tok co,
+  trep (files_of s) sg -> Forall wf_lru ps ->
+  match k with Some k0 => 0 < k0 | None => True end -> tok <> Some [] ->
+  match paginate_pages ps k tok co s with
+  | ROk r => exists sg', py_traph_paginate_webentity_pages sg w ps k tok co =
+               Some (sg', mk_pa (pr_done r) (pr_count r) (pr_count_crawled r) (pr_pages r) (pr_token r)) /\
+             pm_array sg' = pm_array sg
+  | _ => py_traph_paginate_webentity_pages sg w ps k tok co = None
+  end.
+Proof.
+  intros d rs h Hh s sg w ps k tok co Hrep Hps Hk Htok.
+  pose proof (GenTraphGFacts.py_traph_paginate_webentity_pages_run d rs h Hh sg w ps k tok co Hrep Hps Hk Htok) as H.
+  cbv zeta in H. fold s in H.
+  destruct (paginate_pages ps k tok co s) as [| |r]; [exact H|exact H|].
+  destruct H as (sg' & E & _ & Harr). exists sg'. split; assumption.
+Qed.
+Print Assumptions C09_source_paginate_pages.
